@@ -2,7 +2,7 @@
 HOOK_COMMITS = ["782740f"]
 
 # properties whose check is registered in MANIFEST.json
-CLAIMED = ["C01", "C02", "C03", "C04", "C05", "C06", "C07", "C08", "C09", "C10", "C11", "C12", "C13", "C14", "C15", "C16", "C17", "C18", "C20"]
+CLAIMED = ["C01", "C02", "C03", "C04", "C05", "C06", "C07", "C08", "C09", "C10", "C11", "C12", "C13", "C14", "C15", "C16", "C17", "C18", "C19", "C20"]
 
 NOT_YET = "not claimed yet: model, theorems and correspondence check for this property are still under construction (see DESIGN.md section 7); no check is registered, so nothing is asserted about it"
 
